@@ -6,7 +6,7 @@ Trace == ndJsonDeserialize(IOEnv.TRACE)
 
 VARIABLES l, bad
 
-Conjuncts == {"C12_NoPanic", "C12_TagMap", "C12_Others", "C12_AllDecls", "C12_Doc", "C12_DocTags", "C12_Comment"}
+Conjuncts == {"C12_NoPanic", "C12_TagMap", "C12_Others", "C12_AllDecls", "C12_Doc", "C12_DocTags", "C12_Comment", "C12_EveryCall"}
 
 ToSet(s) == {s[i] : i \in 1..Len(s)}
 
@@ -32,7 +32,13 @@ Holds(c, r) ==
                                           /\ o.decls[i].doc_tagvals = ExpectedDoc(lay, o.decls[i].line).tagvals
                                           /\ ToSet(o.decls[i].doc_tagkeys) \subseteq {"t"}
            [] c = "C12_Comment"  -> o.panicked \/ \A i \in 1..Len(o.decls) :
-                                       o.decls[i].line \in DeclLines(lay) => o.decls[i].comment = ExpectedComment(lay, o.decls[i].line)
+                                       (o.decls[i].line \in DeclLines(lay) /\ CommentJudged(lay[o.decls[i].line])) => o.decls[i].comment = ExpectedComment(lay, o.decls[i].line)
+           (* "every call": the answers to a second call, made after the caller overwrote what the first one returned *)
+           [] c = "C12_EveryCall" -> o.panicked \/ \A i \in 1..Len(o.decls) :
+                                       o.decls[i].line \in DeclLines(lay) =>
+                                          /\ o.decls[i].doc_lines2 = ExpectedDoc(lay, o.decls[i].line).lines
+                                          /\ o.decls[i].doc_tagvals2 = ExpectedDoc(lay, o.decls[i].line).tagvals
+                                          /\ CommentJudged(lay[o.decls[i].line]) => o.decls[i].comment2 = ExpectedComment(lay, o.decls[i].line)
            [] OTHER -> TRUE
 
 Failed(r) == {c \in Conjuncts : ~Holds(c, r)}
